@@ -80,6 +80,10 @@ Theorem C14_grid_extent : forall sx sy n0 n1 i j, (2 <= n0)%nat -> (2 <= n1)%nat
   vx (grid_local sx sy n0 n1 0 j) = - (sx / 2) /\ vx (grid_local sx sy n0 n1 (n0 - 1) j) = sx / 2 /\
   vy (grid_local sx sy n0 n1 i 0) = - (sy / 2) /\ vy (grid_local sx sy n0 n1 i (n1 - 1)) = sy / 2.
 Proof. exact grid_extent. Qed.
+(* a single row or column makes the NumPy step size/(no - 1) undefined (the implementation raises): C14_grid_in is the
+   strongest statement, from 2 points per axis on *)
+Theorem C14_grid_single_refuted : exists n, (1 <= n)%nat /\ INR n - 1 = 0.
+Proof. exact grid_single_refuted. Qed.
 Theorem C14_box_in : forall sx sy sz n0 n1 n2 centre tilt,
   0 <= sx -> 0 <= sy -> 0 <= sz -> (1 <= n0)%nat -> (1 <= n1)%nat -> (1 <= n2)%nat ->
   Forall (in_box centre tilt sx sy sz) (box_points sx sy sz n0 n1 n2 centre tilt).
